@@ -179,7 +179,7 @@ func (g *gsm7Decoder) Transform(dst, src []byte, atEOF bool) (nDst, nSrc int, er
 				septets = append(septets, (src[count+4]&0x07<<4)|(src[count+3]&0xF0>>4))
 				septets = append(septets, (src[count+5]&0x03<<5)|(src[count+4]&0xF8>>3))
 				septets = append(septets, (src[count+6]&0x01<<6)|(src[count+5]&0xFC>>2))
-				if src[count+6] > 0 {
+				if remain > 7 || src[count+6] > 0 {
 					septets = append(septets, src[count+6]&0xFE>>1)
 				}
 				count += 7
@@ -515,7 +515,7 @@ func Unpack(src []byte) (septets []byte) {
 			septets = append(septets, (src[count+4]&0x07<<4)|(src[count+3]&0xF0>>4))
 			septets = append(septets, (src[count+5]&0x03<<5)|(src[count+4]&0xF8>>3))
 			septets = append(septets, (src[count+6]&0x01<<6)|(src[count+5]&0xFC>>2))
-			if src[count+6] > 0 {
+			if remain > 7 || src[count+6] > 0 {
 				septets = append(septets, src[count+6]&0xFE>>1)
 			}
 			count += 7
